@@ -16,14 +16,22 @@ EntityDecls == {"entity_internal", "entity_external_file", "entity_external_http
 \* decl_latin1 / decl_utf16text: the document is handed over as text whose XML declaration names another
 \* encoding than the one the text will be encoded in
 Harmless   == {"doctype_plain", "external_dtd", "xinclude", "stylesheet_pi", "utf16", "bom", "decl_latin1", "decl_utf16text"}
-Malformed  == {"truncate_open_tag", "truncate_mid_text", "truncate_before_close", "not_xml", "empty"}
+\* bad_*: a complete document handed over as bytes that are not valid in its encoding (stray byte, overlong form,
+\* cut multi-byte character, lone UTF-16 surrogate): a fatal error for any XML processor
+BadEncoding == {"bad_utf8_byte", "bad_utf8_overlong", "bad_utf8_cut", "bad_utf16_surrogate"}
+Malformed  == {"truncate_open_tag", "truncate_mid_text", "truncate_before_close", "not_xml", "empty"} \cup BadEncoding
 Constructs == EntityDecls \cup Harmless \cup Malformed
 \* constructs that cannot be combined in one document
 Compatible(w) == /\ Cardinality(w \cap Malformed) <= 1
-                 /\ Cardinality(w \cap {"utf16", "bom", "decl_latin1", "decl_utf16text"}) <= 1
+                 /\ Cardinality(w \cap ({"utf16", "bom", "decl_latin1", "decl_utf16text"} \cup BadEncoding)) <= 1
                  /\ Cardinality(w \cap (EntityDecls \cup {"doctype_plain", "external_dtd"})) <= 1     \* one DOCTYPE
                  /\ ("not_xml" \in w \/ "empty" \in w => Cardinality(w) = 1)
-Words == {w \in SUBSET Constructs : Cardinality(w) <= MaxConstructs /\ Compatible(w)}
+\* built from below (SUBSET Constructs has millions of members)
+Upto(n) == {{}} \cup {{a} : a \in Constructs}
+           \cup (IF n >= 2 THEN {{a, b} : a \in Constructs, b \in Constructs} ELSE {})
+           \cup (IF n >= 3 THEN {{a, b, c} : a \in Constructs, b \in Constructs, c \in Constructs} ELSE {})
+Words == {w \in Upto(MaxConstructs) : Compatible(w)}
+ASSUME MaxConstructs \in 1..3
 
 VARIABLES entry, word, pc, outcome, io
 vars == <<entry, word, pc, outcome, io>>
